@@ -342,6 +342,12 @@ fn main() {
     let code = match args.get(1).map(|s| s.as_str()) {
         Some("worker") => worker(&args),
         Some("replay") => replay(&args),
+        Some("partition") => {
+            let g = wax::Glob::new(&args[2]).unwrap();
+            let (p, r) = g.partition();
+            println!("{:?} {:?}", p, r.map(|g| g.to_string()));
+            0
+        },
         Some("selftest") => selftest(&args),
         Some("gen") => {
             let prop = arg(&args, "--prop").expect("--prop");
